@@ -51,7 +51,7 @@ typedef struct exec_s {
 	_Atomic int late_after_foreign, late_after_caw, running_at_caw_ret;
 	int handler_cancel_at;                 /* cancel from the handler at this invocation (1-based), 0 = never */
 	_Atomic int handler_cancelled;
-	dispatch_semaphore_t ch_sem, h_sem, new_sem;
+	dispatch_semaphore_t ch_sem, h_sem, new_sem, fin_sem;
 	dispatch_source_t ds2;
 	_Atomic int new_events, old_after_recycle, steered_late;
 	int recycled;
@@ -93,7 +93,7 @@ static int find_epfd(void)
 	closedir(d);
 	return found;
 }
-/* 1: epoll set of the library holds an entry for fd with (events & mask) != 0; 0: not; -1: cannot tell */
+/* 1: the epoll set of the library holds an entry for fd; 0: not; -1: cannot tell */
 static int epoll_monitors(int fd, unsigned mask)
 {
 	if (g_epfd < 0) g_epfd = find_epfd();
@@ -104,7 +104,9 @@ static int epoll_monitors(int fd, unsigned mask)
 	char line[256]; int res = 0;
 	while (fgets(line, sizeof(line), f)) {
 		int tfd; unsigned ev;
-		if (sscanf(line, "tfd: %d events: %x", &tfd, &ev) == 2 && tfd == fd && (ev & mask)) res = 1;
+		/* a fired EPOLLONESHOT entry shows no EPOLLIN/EPOLLOUT bit but is still a registration: any entry counts
+		 * (every scenario here has ONE source per descriptor) */
+		if (sscanf(line, "tfd: %d events: %x", &tfd, &ev) == 2 && tfd == fd) res = 1;
 	}
 	fclose(f);
 	return res;
@@ -331,6 +333,7 @@ static void cancel_handler(void *ctx)
 	dispatch_semaphore_signal(x->ch_sem);
 }
 
+static void finalizer_fn(void *ctx) { exec_t *x = ctx; dispatch_semaphore_signal(x->fin_sem); }
 static void citem_fn(void *ctx) { exec_t *x = ctx; do_cancel(x, CTX_TQITEM); }
 static void nop_fn(void *ctx) { (void)ctx; }
 
@@ -449,10 +452,12 @@ static void pst(FILE *f, const char *k, uint64_t s)
 			_dq_state_is_suspended(s) ? "true" : "false");
 }
 
+static int p_obj = -1, p_robj = -1;
 static void proj(FILE *f, const vrt_rec_t *r)
 {
 	switch (r->kind) {
 	case VRT_MARK:
+		if (!strcmp(r->name, "Reset")) { p_obj = (int)(r->a >> 16); p_robj = (int)(r->b >> 8); }
 		if (!strcmp(r->name, "Reset"))
 			fprintf(f, "{\"e\":\"Reset\",\"kind\":\"%s\",\"kl\":\"%s\",\"mode\":\"%s\",\"serial\":%s,\"ch\":%s,\"x\":%ld}\n", KNAME[r->a & 15], KLONG[r->a & 15],
 					MNAME[(r->a >> 4) & 31], (r->b & 1) ? "true" : "false", (r->b & 2) ? "true" : "false", r->c);
@@ -468,6 +473,7 @@ static void proj(FILE *f, const vrt_rec_t *r)
 		break;
 	case VRT_ATOMIC: {
 		const char *op = r->site->dvs_op;
+		if (r->obj != p_obj && r->obj != p_robj) break;     /* not one of this execution's two objects */
 		if (r->cls == 1) {
 			if ((r->oldv & DSF_MODEL_MASK) == (r->newv & DSF_MODEL_MASK) && strcmp(op, "load") && strcmp(op, "giveup") &&
 					!(r->oldv == r->newv)) break;   /* a change of other flag bits only (DQF_MUTABLE, DQF_BARRIER_BIT...) */
@@ -491,7 +497,7 @@ static void proj(FILE *f, const vrt_rec_t *r)
 	}
 	case VRT_PROBE:
 		/* optional H5 probes (patches/C16-hook-epoll-probes.diff): kernel registration life cycle */
-		if (!strncmp(r->name, "c16_", 4) && r->obj >= 0)
+		if (!strncmp(r->name, "c16_", 4) && r->obj >= 0 && r->obj == p_robj)
 			fprintf(f, "{\"e\":\"P\",\"t\":%d,\"p\":\"%s\",\"a\":%ld,\"b\":%ld}\n", r->tid, r->name + 4, r->a, r->b);
 		break;
 	}
@@ -525,6 +531,7 @@ static void run_one(int id)
 	x->has_ch = !(x->mode == M_CAW || x->mode == M_CAW_PRE || x->mode == M_CAW_HANGUP);
 	x->fd = x->keepfd = x->peerfd = x->rd2 = x->wr2 = -1;
 	x->ch_sem = dispatch_semaphore_create(0); x->h_sem = dispatch_semaphore_create(0); x->new_sem = dispatch_semaphore_create(0);
+	x->fin_sem = dispatch_semaphore_create(0);
 	if (x->serial) {
 		x->tq = dispatch_queue_create("verif.cancel.target", DISPATCH_QUEUE_SERIAL);
 		dispatch_queue_set_specific(x->tq, &g_key, x->tq, NULL);
@@ -550,18 +557,21 @@ static void run_one(int id)
 	x->dr = x->ds->ds_refs;
 	dispatch_set_context(x->ds, x);
 	dispatch_source_set_event_handler_f(x->ds, ev_handler);
+	dispatch_set_finalizer_f(x->ds, finalizer_fn);
 	if (x->has_ch) dispatch_source_set_cancel_handler_f(x->ds, cancel_handler);
 	if (x->kind == K_TIMER) {
 		uint64_t iv = 100000ull + vrt_rand() % 1500000ull;   /* 0.1 .. 1.6 ms */
 		dispatch_source_set_timer(x->ds, dispatch_time(DISPATCH_TIME_NOW, (int64_t)(vrt_rand() % 500000)), iv, 0);
 	}
 	if (x->mode == M_HANDLER || x->mode == M_HANDLER_AND_FOREIGN) x->handler_cancel_at = 1 + (int)(vrt_rand() % 3);
-	vrt_unregister_all();
+	/* registrations are never dropped: object ids are unique per execution, the projector keeps only the
+	 * records of the current execution's two objects (a library thread may still be finishing with the
+	 * previous source, or another object may be allocated where an old one was) */
 	x->obj = vrt_register(x->ds, malloc_usable_size(x->ds), 1);
 	x->robj = vrt_register(x->dr, dux_type(x->dr)->dst_size, 2);
 	g_cur = x;
 	vrt_pause(0);
-	vrt_mark("Reset", x->kind | (x->mode << 4), (x->serial ? 1 : 0) | (x->has_ch ? 2 : 0), id);
+	vrt_mark("Reset", x->kind | (x->mode << 4) | ((long)x->obj << 16), (x->serial ? 1 : 0) | (x->has_ch ? 2 : 0) | ((long)x->robj << 8), id);
 
 	/* ---- before activation ---- */
 	if (x->mode == M_PRE || x->mode == M_PRE_TWICE) {
@@ -642,6 +652,8 @@ static void run_one(int id)
 	vrt_pause(1);
 	atomic_store(&x->closed, 1);
 	dispatch_release(x->ds);
+	/* the finalizer runs when the last internal reference is gone: nobody touches the object after that */
+	(void)dispatch_semaphore_wait(x->fin_sem, dispatch_time(DISPATCH_TIME_NOW, 5 * (int64_t)NSEC_PER_SEC));   /* (a leaked reference is C17's business) */
 	if (x->serial) dispatch_release(x->tq);
 	if (x->fd >= 0) close(x->fd);
 	if (x->keepfd >= 0) close(x->keepfd);
